@@ -402,4 +402,53 @@ theorem palindrome_functional (ms : List StepMap) : MirrorFunctional (palindrome
   · simp
   · intro x hx; cases hx
 
+/-! ### inverting twice -/
+
+theorem StepMap.invert_invert (m : StepMap) : m.invert.invert = m := by
+  cases m; simp [StepMap.invert]
+
+theorem invert_invert_maps (mp : Mapping) : mp.invert.invert.maps = mp.maps := by
+  rw [invert_maps, invert_maps, ← List.map_reverse, List.reverse_reverse, List.map_map]
+  have : StepMap.invert ∘ StepMap.invert = id := by
+    funext m; exact StepMap.invert_invert m
+  rw [this, List.map_id]
+
+theorem invert_maps_length (mp : Mapping) : mp.invert.maps.length = mp.maps.length := by
+  rw [invert_maps]; simp
+
+theorem invert_invert_getMirror (mp : Mapping) (h : MirrorFunctional mp) (j : Nat) (hj : j < mp.maps.length) :
+    mp.invert.invert.getMirror j = mp.getMirror j := by
+  have hi := invert_functional mp h
+  have h2 := invert_getMirror mp.invert hi.sym hi.inRange (mp.maps.length - 1 - j)
+    (by rw [invert_maps_length]; omega)
+  rw [invert_maps_length] at h2
+  have e : mp.maps.length - 1 - (mp.maps.length - 1 - j) = j := by omega
+  rw [e] at h2
+  have h1 := invert_getMirror mp h.sym h.inRange j hj
+  rw [h2, h1]
+  cases hg : mp.getMirror j with
+  | none => rfl
+  | some k =>
+    have := h.inRange j k hj hg
+    simp only [Option.map_some]
+    congr 1; omega
+
+/-- inverting twice gives a mapping that maps like the original read as a whole -/
+theorem invert_invert_mapResult (mp : Mapping) (h : MirrorFunctional mp) (p a : Int) :
+    mp.invert.invert.mapResult p a = mp.whole.mapResult p a := by
+  rw [mapResult_eq_run, mapResult_eq_run, invert_from]
+  have hto : mp.invert.invert.to = mp.maps.length := by rw [invert_to, invert_maps_length]
+  have := run_congr mp.whole mp.invert.invert a 0 0 (by rw [hto]; simp [Mapping.whole, Mapping.slice])
+    (fun j _ _ => by rw [Nat.zero_add, invert_invert_maps]; rfl)
+    (fun j _ hj => by
+      have hj' : j < mp.maps.length := by simpa [Mapping.whole, Mapping.slice] using hj
+      rw [Nat.zero_add]
+      have e : jumpT mp.invert.invert j = jumpT mp.whole j :=
+        jumpT_same _ _ j (by rw [hto]; simp [Mapping.whole, Mapping.slice])
+          (invert_invert_getMirror mp h j hj')
+      rw [e]; cases jumpT mp.whole j <;> simp)
+    (mp.whole.to - 0) 0 p 0 rfl (Nat.le_refl _)
+  rw [Nat.zero_add] at this
+  exact this
+
 end PM
